@@ -184,6 +184,118 @@ def io_engine(run, tier, seed):
     lineengine.run_engine("io", [str(seed)] + ([] if tier == "thorough" else ["quick"]), describe, run, timeout=3000)
 
 
+# clusters used by the grapheme-mode segmentation check (each starts with a base character, so the
+# boundary before it is a cluster boundary whatever precedes it)
+GCUT_PLAIN = ["a", "b", "xyz", "q", " ", "\u4e2d", "\u65e5\u672c", "\u00e9", "\U0001f600", "\U0001f439", "\u20ac"]
+GCUT_CLASSES = {
+    "combining": ["e\u0301", "a\u0308\u0323", "o\u0302"],
+    "zwj": ["\U0001f468\u200d\U0001f469\u200d\U0001f467", "\U0001f3f3\ufe0f\u200d\U0001f308"],
+    "modifier": ["\U0001f469\U0001f3fd"],
+    "flags": ["\U0001f1fa\U0001f1f8", "\U0001f1e9\U0001f1ea"],
+    "vs16": ["\u263a\ufe0f", "\u00a9\ufe0f"],
+    "keycap": ["1\ufe0f\u20e3"],
+    "jamo": ["\u1100\u1161\u11a8"],
+    "hangul": ["\ud55c"],
+    "thai": ["\u0e01\u0e33", "\u0e19\u0e49\u0e33"],
+}
+GCUT_UNITS = GCUT_PLAIN + [u for c in GCUT_CLASSES.values() for u in c]
+GCUT_NARROW = ["a", "b", "xyz", "q", " ", "\u00e9", "\u20ac", "e\u0301", "a\u0308\u0323", "o\u0302"]
+
+
+def _case_of(lines, cid):
+    i = lines.index("# " + cid)
+    j = i
+    while lines[j] != "199":
+        j += 1
+    return "\n".join(lines[i:j + 1]) + "\n"
+
+
+def grapheme_cut_engine(run, tier, seed):
+    """C08, grapheme mode, on the implementation alone (no model: grapheme segmentation is not modelled): the
+    same stream delivered in one read, cut at random cluster boundaries (and anywhere inside escape sequences),
+    and cut at every such boundary must leave the same screen, cursor, modes and replies.  Supporting evidence."""
+    import random
+    import core
+    rnd = random.Random(seed * 7919 + 13)
+    units = GCUT_UNITS
+    escs = ["\x1b[1m", "\x1b[0m", "\x1b[31;44m", "\r\n", "\r", "\n", "\x1b[2;3H", "\x1b[K", "\x1b[C", "\x1b[D", "\x1b[?7h", "\x1b[?7l",
+            "\t", "\x1b[6n", "\x1b[2X", "\x1b[P", "\x1b[1;1H", "\x1b]2;té\x07", "\x1b[?1049h", "\x1b[?1049l", "\b"]
+    n = 360 if tier == "thorough" else 60
+    lines = []
+    meta = {}
+    kinds_of = {}
+    for i in range(n):
+        w, h = rnd.choice([2, 3, 5, 8, 13, 20, 40, 80]), rnd.choice([1, 2, 4, 8])
+        # every third stream has narrow clusters only and also runs on the span buffer (with wide glyphs a write that
+        # starts on a second half - sanctioned span behaviour, KF-second-half - depends on how the run is cut)
+        narrow_only = i % 3 == 0
+        pool = GCUT_NARROW if narrow_only else units
+        kinds_of[i] = "01" if narrow_only else "1"
+        items = [(rnd.choice(pool), False) if rnd.random() < 0.75 else (rnd.choice(escs), True) for _ in range(rnd.randint(2, 40))]
+        stream = b"".join(t.encode("utf8") for t, _ in items)
+        bounds, pos = set(), 0
+        for t, is_esc in items:
+            b = t.encode("utf8")
+            if is_esc:
+                bounds.update(range(pos + 1, pos + len(b)))
+            pos += len(b)
+            bounds.add(pos)
+        bounds.discard(len(stream))
+        bl = sorted(bounds)
+        some = sorted(rnd.sample(bl, min(len(bl), rnd.randint(1, 6)))) if bl else []
+        variants = {"whole": [], "some": some, "every": bl}
+        for kind in kinds_of[i]:
+            for vname, cuts in variants.items():
+                cid = "gcut-%d-%d-k%s-%s" % (seed, i, kind, vname)
+                lines.append("# " + cid)
+                lines.append("100 1 %s %d %d" % (kind, w, h))
+                lines.append("101")
+                prev = 0
+                for c in cuts + [len(stream)]:
+                    if c > prev:
+                        lines.append("110 " + " ".join(str(x) for x in stream[prev:c]))
+                    prev = c
+                lines.append("199")
+                meta[cid] = (i, kind, vname, stream, cuts, w, h)
+    txt = "\n".join(lines) + "\n"
+    impl_txt, dead = core.run_impl(txt, core.BUILD)
+    impl = core.parse_output(impl_txt)
+
+    def final(cid):
+        c = impl.get(cid)
+        if not c or not c["ops"]:
+            return None
+        last = [r for r in c["ops"][-1] if r[0] in (2, 3, 5, 6)]
+        replies = [x for op in c["ops"] for r in op if r[0] == 4 for x in r[1:]]
+        crash = any(op[0][2] for op in c["ops"])
+        return (last, replies, crash)
+    cmp_n = 0
+    for i in range(n):
+        for kind in kinds_of[i]:
+            ref = final("gcut-%d-%d-k%s-whole" % (seed, i, kind))
+            for vname in ("some", "every"):
+                cid = "gcut-%d-%d-k%s-%s" % (seed, i, kind, vname)
+                got = final(cid)
+                run.stats["cases"] += 1
+                if ref is None or got is None:
+                    continue
+                cmp_n += 1
+                run.stats["ops_compared"] += 1
+                run.stats["ops_projected"] += 1
+                if ref != got:
+                    _, _, _, stream, cuts, w, h = meta[cid]
+                    what = "grapheme mode, %s buffer, %dx%d: the stream read whole and read in %d pieces cut at cluster boundaries %s leave different %s" % (
+                        "grid" if kind == "1" else "span", w, h, len(cuts) + 1, cuts[:12],
+                        "replies" if ref[0] == got[0] else "screens")
+                    run.violations.append({"kind": "segmentation", "what": what, "case": cid, "op": None,
+                                           "case_text": _case_of(lines, cid),
+                                           "expected": ref[0][:2], "actual": got[0][:2], "step": False})
+                    if len(run.violations) > 20:
+                        break
+    run.stats["grapheme_cut_comparisons"] = cmp_n
+    run.samples.append({"engine": "grapheme-cut", "streams": n, "comparisons": cmp_n})
+
+
 def span_engine(run, tier, seed):
     """Function-level correspondence of the span splicing primitives (replaceRange, splitSpan, truncate, resize,
     deleteChars, rawWriteSpan, StyledLine, ...) with Model/Span.v: raw span structure compared line by line."""
@@ -198,11 +310,14 @@ def span_engine(run, tier, seed):
 
 PROPS = {
     "C01": {"tags": [2], "ppref": ("C01",), "batches": [
-        B("hostile", 500, 3000, tags=[]), B("mixed", 300, 1800, tags=[]), B("hostile", 150, 900, modes="1", tags=[])]},
+        B("hostile", 500, 3000, tags=[]), B("mixed", 300, 1800, tags=[]), B("hostile", 150, 900, modes="1", tags=[]),
+        B("gclusters", 150, 900, modes="1", tags=[])]},   # grapheme clusters and their pieces: crashes and accessors only
     "C02": {"tags": SCREEN, "ppref": ("C02",), "batches": [
         B("mixed", 150, 900, modes="1"),
         B("mixed", 500, 3000), B("hostile", 300, 1800, tags=[2]), B("stepall", 200, 1200, step=True),
-        B("c18", 200, 1200)], "extra": [span_engine]},
+        B("c18", 200, 1200),
+        B("gclusters", 200, 1200, modes="1", tags=[])],   # grapheme mode, not modelled: the invariant predicates on the implementation alone
+        "extra": [span_engine]},
     "C03": {"tags": SCREEN, "ppref": ("C03", "C02"), "batches": [
         B("c03", 150, 900, step=True, kinds_wanted=[1], modes="1"),
         B("c03", 400, 2400, step=True, kinds_wanted=[1]),
@@ -215,9 +330,10 @@ PROPS = {
         B("c06", 400, 2400, step=True, kinds_wanted=[5, 14, 2])]},
     "C07": {"tags": [2, 3, 7], "ppref": ("C07",), "batches": [
         B("c07", 400, 2400, step=True, kinds_wanted=[6, 1, 4, 5])]},
-    "C08": {"tags": ALL, "ppref": ("C08",), "batches": [B("c08", 400, 2400), B("c08", 150, 900, modes="1"), B("c08long", 40, 240, modes="01")]},
+    "C08": {"tags": ALL, "ppref": ("C08",), "batches": [B("c08", 400, 2400), B("c08", 150, 900, modes="1"), B("c08long", 40, 240, modes="01")], "extra": [grapheme_cut_engine]},
     "C09": {"tags": ALL, "ppref": ("C09",), "batches": [
-        B("c09", 400, 2400, step=True, kinds_wanted=[10, 13])]},
+        B("c09", 400, 2400, step=True, kinds_wanted=[10, 13]),
+        B("c09cut", 150, 900)]},   # the same sequences with reads cut anywhere, also right after ESC
     "C10": {"tags": [7, 8], "ppref": ("C10",), "batches": [B("stepall", 400, 2400, step=True), B("mixed", 200, 1200)]},
     "C11": {"tags": [], "ppref": ("C11",), "batches": [B("mixed", 400, 2400, tags=[]), B("c07", 300, 1800, tags=[])], "extra": [tty_engine]},
     "C12": {"tags": [], "ppref": ("C12",), "batches": [], "extra": [keys_engine]},
